@@ -1,5 +1,6 @@
 //! Runtime support linked into generated programs: event log, move-only tokens, plans,
 //! scheduling gates, the reference model and the in-binary runners/oracles.
+pub mod alloc;
 pub mod asyncx;
 pub mod cb;
 pub mod chainrt;
